@@ -434,6 +434,13 @@ theorem pin_distinct :
     Gen.ftfModuleAddress ≠ Gen.moduleAddress ∧ Gen.ftfModuleAddress ≠ Gen.dustCollectorAddress ∧
     Gen.transferModuleAddress ≠ Gen.moduleAddress ∧ Gen.transferModuleAddress ≠ Gen.dustCollectorAddress := by decide
 
+/-- Coverage obligation: in the built application the dust collector is a module account that cannot receive transfers
+from users (blocked address with an account permission entry), and the orbiter account is not blocked — ICS-20 must be able to
+credit it. -/
+theorem pin_dust_collector_blocked :
+    Gen.dustCollectorBlocked = true ∧ Gen.dustCollectorHasAccountPermission = true ∧ Gen.orbiterBlocked = false ∧
+    Gen.blockedAddresses.contains Gen.dustCollectorAddress = true ∧ Gen.blockedAddresses.contains Gen.moduleAddress = false := by decide
+
 /-- The world with `ε d` more coins of every denomination `d` on the orbiter account. -/
 def withExtra (cfg : Cfg) (w : World) (ε : String → Nat) : World :=
   { w with bank := { w.bank with bal := fun a d => w.bank.bal a d + (if a = cfg.orbAddr then ε d else 0) } }
